@@ -139,6 +139,11 @@ fn session(seed: u64, scenario: &str) -> Vec<Value> {
         })
     };
     let mut term = SystemTerminal::open(&slave).expect("open terminal on pty");
+    // every third session mirrors its output into a file (duplicate_output): the tee must not change what reaches the tty
+    let tee = std::env::temp_dir().join(format!("snt-tee-{}-{}", std::process::id(), seed));
+    if seed % 3 == 0 {
+        term.duplicate_output(&tee).expect("tee file");
+    }
     ev(r#"{"ev":"session_start"}"#.to_string());
     let mut threads = Vec::new();
     let mut frame_no = 0u64;
@@ -252,9 +257,27 @@ fn session(seed: u64, scenario: &str) -> Vec<Value> {
     ev(r#"{"ev":"quiet"}"#.to_string());
     match scenario {
         "quit" | "quit2" => {
+            // half of the sessions have output queued when the signal arrives and poll with a zero timeout
+            let busy = seed % 2 == 1;
+            if busy {
+                let v = 0x80 + (frame_no % 100) as u8;
+                let n = [5usize, 3000, 200000][(seed / 2 % 3) as usize];
+                ev(format!(r#"{{"ev":"app_write","v":{},"n":{}}}"#, v, n));
+                term.write_all(&vec![v; n]).unwrap();
+                term.flush().unwrap();
+            }
             ev(r#"{"ev":"sig_raise","sig":15}"#.to_string());
             unsafe { libc::raise(libc::SIGTERM) };
-            do_poll(&mut term, Some(Duration::from_millis(200)));
+            if busy {
+                for _ in 0..3 {
+                    let (kind, _) = do_poll(&mut term, Some(Duration::from_millis(0)));
+                    if kind == "quit" {
+                        break;
+                    }
+                }
+            } else {
+                do_poll(&mut term, Some(Duration::from_millis(200)));
+            }
             if scenario == "quit2" {
                 // a second termination signal arrives while the object is being released
                 ev(r#"{"ev":"sig_raise","sig":15}"#.to_string());
@@ -273,6 +296,7 @@ fn session(seed: u64, scenario: &str) -> Vec<Value> {
         _ => {}
     }
     drop(term);
+    let _ = std::fs::remove_file(&tee);
     let after = termios_of(keep.as_raw_fd());
     // let the peer drain what is left, then stop it
     std::thread::sleep(Duration::from_millis(30));
